@@ -537,7 +537,11 @@ func (q *checker) bcheckAssignment(lhs *a.Expr, op t.ID, rhs *a.Expr) error {
 			// No-op.
 
 		} else if lhs.MType().IsNumType() {
-			q.facts.appendBinaryOpFact(t.IDXBinaryEqEq, lhs, rhs)
+			// For "x = x + 1", do not record "x == (x + 1)": the RHS refers to
+			// the old value of x.
+			if !rhs.Mentions(lhs) {
+				q.facts.appendBinaryOpFact(t.IDXBinaryEqEq, lhs, rhs)
+			}
 
 			if rhs.Operator() == a.ExprOperatorCall {
 				if lTyp := rhs.LHS().AsExpr().MType(); lTyp.IsFuncType() && lTyp.Receiver().IsNumType() {
